@@ -13,6 +13,12 @@ Model driver of C17. Payloads (space separated, strings hex encoded, `-` = empty
   Result: per path `E` (error), `I<n>` (content of file n, inside the root) or `O<n>`
   (content of file n, OUTSIDE the root), comma separated. `rootpos` is not used by the model:
   it computes the root's position by walking the root string.
+* `J <cwd> <files+modules> <root> <rootpos> <srcname> <path>` — the import statement in a program
+  parsed under `srcname`; file entries `pos>inner` are modules importing `inner`. Model:
+  `importEval` (the source name is not used). Result `E` / `I<n>` / `O<n>`.
+* `T <cwd> <files> <dir> <modelroot> <rootpos> <pre|~> <depth> <alphabet>` — the command line tool
+  configured with `dir`; the model resolves with `toolLocatorRoot modelroot` (`modelroot = dir`
+  except for a symlinked root, where it is the link's target).
 -/
 namespace Ecal.Drv.C17
 open Ecal.Drv Ecal.Path
@@ -61,15 +67,31 @@ def outcome (cwd : Pos) (files : List Pos) (root p : Str) : String :=
       (if isPrefixOf rootPos pos then "I" else "O") ++ toString i
   | _ => "E"
 
-def runCase (payload : String) : String :=
-  match payload.splitOn " " with
-  | ["P", a, b] =>
-    match hexDecode a, hexDecode b with
-    | some a, some b =>
-      hexEnc (cleanStr a) ++ " " ++ hexEnc (joinStr a b) ++ " " ++ optStr (relStr a b) ++ "\tnt=1"
-    | _, _ => "bad-payload"
-  | [kind, cwd, files, root, _rootpos, pre, depth, alpha] =>
-    if kind ≠ "R" ∧ kind ≠ "I" then "bad-payload" else
+/-- a file entry `pos` or `pos>inner` -/
+def parseEntry (e : Str) : Pos × Option Str :=
+  let rec go : Str → Str → Pos × Option Str
+    | [], acc => (relPos acc.reverse, none)
+    | c :: cs, acc => if c = 62 then (relPos acc.reverse, some cs) else go cs (c :: acc)
+  go e []
+
+def mkFS (cwd : Pos) (entries : List (Pos × Option Str)) : FS := fun q =>
+  let pos := walkStr cwd q
+  let rec go : List (Pos × Option Str) → Nat → Option FileContent
+    | [], _ => none
+    | (f, m) :: fs, i =>
+      if f = pos then (match m with | none => some (.sentinel i) | some inner => some (.imports inner))
+      else go fs (i + 1)
+  go entries 0
+
+def classify (cwd : Pos) (entries : List (Pos × Option Str)) (root : Str) : Option Nat → String
+  | none => "E"
+  | some i =>
+    match entries[i]? with
+    | none => "E"
+    | some (pos, _) => (if isPrefixOf (walkStr cwd root) pos then "I" else "O") ++ toString i
+
+/-- the paths of an `R` / `I` / `T` line resolved with the locator root `root` -/
+def runResolve (cwd files root pre depth alpha : String) : String :=
     match hexDecode cwd, hexDecode files, hexDecode root, depth.toNat?, hexDecode alpha with
     | some cwd, some files, some root, some depth, some alpha =>
       let pre? : Option (Option Str) := if pre = "~" then some none else (hexDecode pre).map some
@@ -87,6 +109,30 @@ def runCase (payload : String) : String :=
         let rs := paths.map (outcome cwdPos filePos root)
         ",".intercalate rs ++ (if rs.any (· ≠ "E") then "\tnt=1" else "")
     | _, _, _, _, _ => "bad-payload"
+
+def runCase (payload : String) : String :=
+  match payload.splitOn " " with
+  | ["P", a, b] =>
+    match hexDecode a, hexDecode b with
+    | some a, some b =>
+      hexEnc (cleanStr a) ++ " " ++ hexEnc (joinStr a b) ++ " " ++ optStr (relStr a b) ++ "\tnt=1"
+    | _, _ => "bad-payload"
+  | ["J", cwd, files, root, _rootpos, src, path] =>
+    match hexDecode cwd, hexDecode files, hexDecode root, hexDecode src, hexDecode path with
+    | some cwd, some files, some root, some src, some path =>
+      let cwdPos := relPos cwd
+      let entries := (splitComma files).map parseEntry
+      let root := subst root
+      let r := importEval (mkFS cwdPos entries) root 8 (subst src) path
+      let res := classify cwdPos entries root r.1
+      res ++ (if res ≠ "E" then "\tnt=1" else "")
+    | _, _, _, _, _ => "bad-payload"
+  | ["T", cwd, files, _dir, modelroot, _rootpos, pre, depth, alpha] =>
+    match hexDecode modelroot with
+    | some r => runResolve cwd files (hexEnc (toolLocatorRoot r)) pre depth alpha
+    | none => "bad-payload"
+  | [kind, cwd, files, root, _rootpos, pre, depth, alpha] =>
+    if kind ≠ "R" ∧ kind ≠ "I" then "bad-payload" else runResolve cwd files root pre depth alpha
   | _ => "bad-payload"
 
 def run (_args : List String) : IO Unit := lineLoop runCase
